@@ -1871,14 +1871,17 @@ class NoteRestToken(ComplexToken):
         # Build agnostic pitch (if requested and applicable)
         agnostic_pitch_representation = None
         if convert_pitch_to_agnostic_fn is not None:
-            only_pitches_and_alterations = [
-                s for s in pitch_duration_tokens_sorted
-                if s.category in {TokenCategory.PITCH, TokenCategory.ALTERATION}
+            pitch_encodings = [
+                s.encoding for s in pitch_duration_tokens_sorted if s.category == TokenCategory.PITCH
             ]
-            if only_pitches_and_alterations:
-                agnostic_pitch_representation = convert_pitch_to_agnostic_fn(
-                    "".join(s.encoding for s in only_pitches_and_alterations)
-                )
+            alteration_encodings = [
+                s.encoding for s in pitch_duration_tokens_sorted if s.category == TokenCategory.ALTERATION
+            ]
+            if pitch_encodings or alteration_encodings:
+                # Only the pitch letters are converted; the accidental (with its display suffix) is carried over unchanged
+                agnostic_pitch_representation = (
+                    convert_pitch_to_agnostic_fn("".join(pitch_encodings)) if pitch_encodings else ""
+                ) + "".join(alteration_encodings)
 
         if agnostic_pitch_representation is not None:
             # When agnostic, add the duration part explicitly, then the agnostic pitch
